@@ -3,12 +3,12 @@ CONSTANTS Ctx <- McCtx
  Init0 <- McInit
  Gas <- McGas
  Devs = {}
- Kinds = {"xfer", "vote", "reg", "topup", "unreg", "box"}
+ Kinds = {"xfer", "vote", "voteby", "reg", "topup", "unreg", "box"}
  From = {"a1", "a2", "a3", "a4", "I"}
- XTo = {"a1", "a2", "a3", "a4", "I", "KS", "KO"}
+ XTo = {"a1", "a2", "a3", "a4", "a5", "I", "KS", "KO"}
  XAmt = {0, 100, 150, 1000}
  Payers = {"a4"}
- Voters = {"a1", "a2", "a3", "a4", "I"}
+ Voters = {"a1", "a2", "a3", "a4", "a5", "I"}
  Cands = {"a3", "a4", "a1"}
  RegAmt = {0, 50, 300, 350}
  AFrom = {}
@@ -20,6 +20,8 @@ CONSTANTS Ctx <- McCtx
  BGL = {}
  BoxFrom = {"a4"}
  BoxTo = {"a1", "a2"}
+ BoxSeqs <- McBoxVote
+ SpendFrom = {"a1", "a2"}
  RewFrom = {}
  RewTerms = {}
  RewAmt = {}
